@@ -95,6 +95,7 @@ def render : Ev → String
   | .stClosed => "st closed"
   | .dump bs => s!"dump {renderHex bs}"
   | .snoop _ d => s!"snoop {d.length} {snoopSum d}"
+  | .lpcerr => "lpcerr"
   | .fault w => s!"crash {w}"
 
 def parseRes (t : String) : Option Res :=
@@ -123,6 +124,7 @@ def parseEv (line : String) : Ev :=
       some (.st (← parseBool w) (← p.toNat?) (← c.toNat?) (← l.toNat?) (← parseBool d))
     | ["dump", h] => do some (.dump (← parseHex h))
     | ["snoop", _, _] => some (.snoop 0 [])
+    | ["lpcerr"] => some .lpcerr
     | _ => none
   match r with
   | some e => e
@@ -147,6 +149,18 @@ def splitUser (line : String) : Nat × List String :=
   | t :: rest => if t.startsWith "@" then ((t.drop 1).toString.toNat?.getD 0, rest) else (1, t :: rest)
   | [] => (1, [])
 
+/-- one token of `react`: e | x | n | t<j> | d<j> (j = 1..4, written canonically) -/
+def parseReact (t : String) : Option React :=
+  if t == "e" then some .echo
+  else if t == "x" then some .err
+  else if t == "n" then some .nop
+  else
+    let j := (t.drop 1).toString.toNat?.getD 0
+    if j < 1 ∨ j > 4 ∨ toString j != (t.drop 1).toString then none
+    else if t.startsWith "t" then some (.tell j)
+    else if t.startsWith "d" then some (.dest j)
+    else none
+
 def parseAct (line : String) : Option Act :=
   let (k, ts) := splitUser line
   if k < 1 ∨ k > 4 then none
@@ -163,6 +177,9 @@ def parseAct (line : String) : Option Act :=
     | some j => if j < 1 ∨ j > 4 then none else some (.mop (.snoop k j))
     | none => none
   | ["unsnoop"] => some (.mop (.unsnoop k))
+  | ["react", l] =>
+    let rs := (l.splitOn ",").map parseReact
+    if rs.all Option.isSome then some (.user k (.react (rs.filterMap id))) else none
   | _ =>
     match parseOpLine (" ".intercalate ts) with
     | some (some op) => some (.user k op)
@@ -190,37 +207,48 @@ def usersOf : MOp → List Nat
   | .snoop k j => [k, j]
   | .unsnoop k => [k]
   | .all _ => []
+  | .writeR k _ _ => [k]
 
-def runActs : World → Pend → List Act → List TEv
-  | _, _, [] => []
-  | w, p, a :: rest =>
+/-- `reactive`: a `react` command was given earlier in the case - from then on a write can reach every user (the harness
+prints the state of every user after it) -/
+def runActs : World → Pend → Bool → List Act → List TEv
+  | _, _, _, [] => []
+  | w, p, re, a :: rest =>
     match a with
-    | .none => runActs w p rest
+    | .none => runActs w p re rest
     | .connect k kind =>
-      if (getU w k).isSome then (k, Ev.fault "connect after the first operation") :: runActs w p rest
+      if (getU w k).isSome then (k, Ev.fault "connect after the first operation") :: runActs w p re rest
       else
         let w1 := ensure w p k (kind == "console")
         if kind == "telnet" then
           let neg := NV.Gen.C14.connectTelnet.map (fun m => MOp.on k (Op.write false (m.map UInt8.ofNat)))
           let r := runM w1 neg
           let r2 := stepM r.1 (.on k .flush)
-          dropSt r.2 ++ r2.2 ++ runActs r2.1 p rest
-        else runActs w1 p rest
+          dropSt r.2 ++ r2.2 ++ runActs r2.1 p re rest
+        else runActs w1 p re rest
     | .user k op =>
       match op, getU w k with
-      | .sendres rs, none => runActs w (p ++ [(k, rs)]) rest
+      | .sendres rs, none => runActs w (p ++ [(k, rs)]) re rest
+      | .react _, _ =>
+        let w1 := ensure w p k false
+        let r := stepM w1 (.on k op)
+        r.2 ++ runActs r.1 p true rest
+      | .write v d, _ =>
+        let w1 := ensure w p k false
+        let r := stepM w1 (if re then .writeR k v d else .on k op)
+        r.2 ++ runActs r.1 p re rest
       | _, _ =>
         let w1 := ensure w p k false
         let r := stepM w1 (.on k op)
-        r.2 ++ runActs r.1 p rest
+        r.2 ++ runActs r.1 p re rest
     | .gmop k m =>
       let w1 := ensure w p k false
       let r := stepM w1 m
-      r.2 ++ runActs r.1 p rest
+      r.2 ++ runActs r.1 p re rest
     | .mop m =>
       let w1 := (usersOf m).foldl (fun w k => ensure w p k false) w
       let r := stepM w1 m
-      r.2 ++ runActs r.1 p rest
+      r.2 ++ runActs r.1 p re rest
 
 def renderT (e : TEv) : String := s!"u{e.1} {render e.2}"
 
@@ -228,7 +256,7 @@ def runModel (lines : List String) : List String :=
   let parsed := lines.map (fun l => (l, parseAct l))
   let bad := parsed.filter (fun p => p.2.isNone)
   if !bad.isEmpty then bad.map (fun p => s!"bad-line {p.1}")
-  else (runActs [] [] (parsed.filterMap (·.2))).map renderT
+  else (runActs [] [] false (parsed.filterMap (·.2))).map renderT
 
 /-- implementation lines are tagged `u<k>`: every user's lines are judged on their own -/
 def runJudge (body : List String) : List String :=
